@@ -15,6 +15,10 @@ CHECKS = {
     "C07": ("exploration", "3.C07", "Refinement against the system's own sequential behaviour: the fresh-process trace of a scenario is compared line by line with its trace after seeded process history, under builder reuse (incl. after failed runs), under wall-clock faults, and while 1-3 other executors run concurrently on simulated threads whose interleaving a seeded scheduler decides at every intercepted mutex operation and node evaluation. Sampling of scenarios, histories and interleavings; word-level races are out of reach."),
     "C08": ("exploration", "3.C08", "Seeded search over programs with one to three feedback edges and writer scripts; for every feedback the stream at the reader is compared with the stream at the bound producer shifted by exactly one MIN_TD, and the whole run with the reference interpreter. Sampling."),
     "C09": ("exploration", "3.C09", "Every case wires the same sub-graph definition inline and as a nested child at depth 1, 2 and 3 against the same inputs in one run; recorder streams must agree across the four variants and with the reference interpreter, and child graphs must be evaluated inside their parent's bracket at the parent's time. Sampling of definitions, scalars and inputs. Three genuine differences are recorded as known findings and reported as KNOWN-FINDING."),
+    "C10": ("exploration", "3.C10", "Seeded key histories over a vocabulary of mapped functions (stateless, stateful, key-consuming, self-scheduling, failing, two multiplexed dictionaries, broadcast) drive the real map_ node; the output dictionary after every tick is compared with a key-set model built from per-key solo reference instances, errors must appear under the failing key only, and child start/stop hooks must pair with key add/remove. Seeded sampling."),
+    "C11": ("exploration", "3.C11", "Seeded element histories over TSD and fixed TSL with operator, node and sub-graph combiners, with and without a non-identity zero; the result is probed in every engine cycle and compared with the fold over exactly the valid elements; every history is also run with its same-cycle operations permuted. Seeded sampling."),
+    "C12": ("exploration", "3.C12", "Seeded key and input histories (rapid flips, flip together with an input tick, return to an earlier key, unmatched key) over a branch vocabulary; the output stream is compared with the concatenation of fresh solo reference instances of the selected branches, and every selection must start a new child graph instance. Seeded sampling."),
+    "C13": ("exploration", "3.C13", "Two scripted targets and a scripted selector feed if_then_else over scalar, bundle, set and dictionary shapes; the result is read directly, below a nested pass-through and from an if_then_else inside a nested graph. A model of the sampled-rebind semantics decides for every cycle whether each consumer must (not) be evaluated and what value and delta it must read. Seeded sampling of relative timings."),
     "C14": ("fault_enumeration", "3.C14", "For each seeded program every single fault point (node x phase x occurrence<=3) is injected in its own run, plus seeded fault pairs, under cleanup_on_error on/off and request_stop; the complete lifecycle-observer history of each run is checked against start/stop pairing, order, exactly-once, no-evaluation-outside-lifetime, rollback and error-identity invariants. Exhaustive over single fault points per program; programs and pairs are sampled."),
     "C15": ("fault_enumeration", "3.C15", "For each seeded program with error capture (exception_time_series / try_except_) every subset of the capturing node's evaluation cycles (complete up to 5 evaluations) is made to throw; each run is compared with the fault-free run (independent streams unchanged), with the error-tick count/message rule and with the reference interpreter under the same fault plan. Exhaustive over cycle subsets for small targets; programs are sampled."),
     "C16": ("exploration", "3.C16", "The real push-source node, sender and real-time executor run on simulated threads: a seeded scheduler chooses the running thread at every intercepted pthread mutex/condition-variable call, advances a simulated clock and injects stalls, spurious and late wake-ups, starvation and stop races. The recorded invoke/return/deliver history is checked for FIFO linearizability, exactly-once, capacity, justified refusals, bounded liveness and lost wake-ups (a forced time-out of the engine's wait while work is pending). Seeded sampling of interleavings (distinct decision-list hashes are counted), not enumeration."),
@@ -24,7 +28,7 @@ CHECKS = {
 }
 NOTE = ("Trusted base: g++ 12 / libstdc++, the /verif harness vocabulary and reference models (sim/*.py), the interposition of pthread and clock_gettime; "
         "the C++ tree is compiled from /repo's working tree (120 of 122 TUs; time-zone provider and JSON operator family are stubs). The Python bridge is not executed.")
-NA = {}
+NA = {"C19": "not applicable to deterministic simulation with fault injection: operator resolution is a pure function of (registered overload set, argument type tuple, registration order); no clock, schedule, fault, I/O or second party is involved, so generating overload families would be input generation under another name (DESIGN.md section 3 C19)"}
 
 
 def main():
